@@ -5,6 +5,7 @@ normalise() applies the ring axioms (already in Poly), cos^2 -> 1 - sin^2 per ar
 sqrt(e)^2 -> e.  Equality = normal form of the cross-multiplied difference is zero.
 No search, no solver."""
 import math
+import os
 from fractions import Fraction as Fr
 
 from .poly import Poly, Rat, _mono_mul, akey as _akey
@@ -69,9 +70,39 @@ def uncanon(c):
     return Rat(Poly(dict(c[0])), Poly(dict(c[1])))
 
 
+def _has_rational_sqrt_square(p):
+    for k in p.t:
+        for a, pw in k:
+            if isinstance(a, tuple) and a[0] == "sqrt" and pw >= 2 and not uncanon(a[1]).d.is_const():
+                return True
+    return False
+
+
+def _eval_sqrt_squares(p):
+    """polynomial -> Rat with sqrt(n/d)^(2k) replaced by (n/d)^k"""
+    out = Rat(Poly())
+    for k, v in p.t.items():
+        term = Rat(Poly.const(v))
+        for a, pw in k:
+            if isinstance(a, tuple) and a[0] == "sqrt" and pw >= 2 and not uncanon(a[1]).d.is_const():
+                arg = uncanon(a[1])
+                term = term * (arg ** (pw // 2))
+                if pw % 2:
+                    term = term * Rat(Poly.atom(a))
+            else:
+                term = term * Rat(Poly.atom(a, pw))
+        out = out + term
+    return out
+
+
 def normalise(r):
     n = reduce_poly(r.n)
     d = reduce_poly(r.d)
+    guard = 0
+    while (_has_rational_sqrt_square(n) or _has_rational_sqrt_square(d)) and guard < 6:
+        guard += 1
+        q = _eval_sqrt_squares(n) / _eval_sqrt_squares(d)
+        n, d = reduce_poly(q.n), reduce_poly(q.d)
     return cancel_content(Rat(n, d))
 
 
@@ -119,11 +150,21 @@ def cancel_content(r):
 def equal(a, b):
     a, b = _R(a), _R(b)
     diff = a.n * b.d - b.n * a.d
-    return reduce_poly(diff).is_zero()
+    red = reduce_poly(diff)
+    if red.is_zero():
+        return True
+    if _has_rational_sqrt_square(red):
+        return normalise(Rat(red)).n.is_zero()
+    return False
 
 
 def is_zero(a):
-    return reduce_poly(_R(a).n).is_zero()
+    red = reduce_poly(_R(a).n)
+    if red.is_zero():
+        return True
+    if _has_rational_sqrt_square(red):
+        return normalise(Rat(red)).n.is_zero()
+    return False
 
 
 def _R(x):
@@ -227,3 +268,222 @@ def subst_atoms(r, mapping):
         mm = {k: v.n for k, v in m.items()}
         return Rat(r.n.subs(mm), r.d.subs(mm))
     raise NotImplementedError("rational substitution")
+
+
+# ---------------------------------------------------------------------------------------------
+# optional rewrites (only applied where a rule asks for them)
+def _half_of_atan2(argcanon):
+    """argcanon is the canon of (1/2)*atan2(y,x) -> the atan2 atom, else None"""
+    r = uncanon(argcanon)
+    two = r * const(2)
+    a = _single_atom(normalise(two))
+    if a is not None and a[0] == "atan2":
+        return a
+    return None
+
+
+def expand_trig_of_atan2(r):
+    """sin(atan2(y,x)) -> y/sqrt(x^2+y^2), cos(atan2(y,x)) -> x/sqrt(x^2+y^2);
+    for X = atan2(..): sin(X/2)^2 -> (1-cos X)/2, cos(X/2)^2 -> (1+cos X)/2, sin(X/2)cos(X/2) -> sin(X)/2.
+    Monomials with an odd leftover power of a half-angle atom are left alone (the caller's comparison then fails
+    closed).  Works on numerator and denominator separately."""
+    r = normalise(_R(r))
+    return normalise(_expand_poly(r.n) / _expand_poly(r.d))
+
+
+def _expand_poly(p):
+    out = const(0)
+    for k, v in p.t.items():
+        term = const(v)
+        km = dict(k)
+        # pair up half-angle atoms
+        halves = {}
+        for a, pw in list(km.items()):
+            if isinstance(a, tuple) and a[0] in ("sin", "cos"):
+                at = _half_of_atan2(a[1])
+                if at is not None:
+                    halves.setdefault(at, {})[a[0]] = (a, pw)
+        for at, d in halves.items():
+            sa, sp = d.get("sin", (None, 0))
+            ca, cp = d.get("cos", (None, 0))
+            X = atom(at)
+            sinX = app("sin", X)
+            cosX = app("cos", X)
+            # use up sin*cos pairs, then squares
+            m = min(sp, cp)
+            rest_s, rest_c = sp - m, cp - m
+            if rest_s % 2 or rest_c % 2:
+                # odd leftover: convert one pair back if possible (keep exactness: leave the monomial untouched)
+                continue
+            term = term * (sinX / const(2)) ** m
+            term = term * ((const(1) - cosX) / const(2)) ** (rest_s // 2)
+            term = term * ((const(1) + cosX) / const(2)) ** (rest_c // 2)
+            if sa is not None:
+                km.pop(sa)
+            if ca is not None:
+                km.pop(ca)
+        for a, pw in km.items():
+            term = term * (atom(a) ** pw)
+        out = out + term
+    # second stage: sin/cos of a bare atan2
+    out = normalise(out)
+
+    def stage2(p2):
+        res = const(0)
+        for k, v in p2.t.items():
+            term = const(v)
+            for a, pw in k:
+                rep = None
+                if isinstance(a, tuple) and a[0] in ("sin", "cos"):
+                    at = _single_atom(uncanon(a[1]))
+                    if at is not None and at[0] == "atan2":
+                        y, x = uncanon(at[1]), uncanon(at[2])
+                        rr = app("sqrt", x * x + y * y)
+                        rep = (y / rr) if a[0] == "sin" else (x / rr)
+                term = term * ((rep if rep is not None else atom(a)) ** pw)
+            res = res + term
+        return res
+    return normalise(stage2(out.n) / stage2(out.d))
+
+
+# ---------------------------------------------------------------------------------------------
+# fast refutation: evaluate both sides at random points (analytic continuation in the complex plane).  A numerical
+# difference is a witness that the two expressions are different functions; agreement proves nothing and the exact
+# normal-form comparison still has to succeed.
+import cmath
+import random as _random
+
+
+class _Env(object):
+    def __init__(self, seed):
+        self.rng = _random.Random(seed)
+        self.vals = {}
+        self.cache = {}
+
+    def atom(self, a):
+        if a in self.cache:
+            return self.cache[a]
+        if isinstance(a, str):
+            if a == "pi":
+                v = math.pi
+            else:
+                v = self.rng.uniform(0.6, 1.7)
+            self.cache[a] = v
+            return v
+        f = a[0]
+        if f == "inv3x3":
+            i, j, key = a[1], a[2], a[3]
+            mk = ("invmat", key)
+            if mk not in self.cache:
+                import numpy as _np
+                cells = [self.rat(uncanon(c)) for c in key]
+                self.cache[mk] = _np.linalg.inv(_np.array(cells, dtype=complex).reshape(3, 3))
+            v = complex(self.cache[mk][i, j])
+            # symmetric-input inverses use canonical (min,max) indices: value is the same entry
+            self.cache[a] = v
+            return v
+        if f == "inv3x3_status":
+            v = 0.0
+            self.cache[a] = v
+            return v
+        args = [self.rat(uncanon(x)) if (isinstance(x, tuple) and len(x) == 2 and isinstance(x[0], tuple)) else x for x in a[1:]]
+        try:
+            if f == "sin":
+                v = cmath.sin(args[0])
+            elif f == "cos":
+                v = cmath.cos(args[0])
+            elif f == "sqrt":
+                v = cmath.sqrt(args[0])
+            elif f == "atan2":
+                y, x = args
+                v = -1j * cmath.log((x + 1j * y) / cmath.sqrt(x * x + y * y))
+            elif f == "acos":
+                v = cmath.acos(args[0])
+            elif f == "asin":
+                v = cmath.asin(args[0])
+            elif f == "atan":
+                v = cmath.atan(args[0])
+            elif f == "exp":
+                v = cmath.exp(args[0])
+            elif f == "log":
+                v = cmath.log(args[0])
+            elif f == "abs":
+                v = abs(args[0])
+            elif f in ("rnd", "floor", "trunc", "int"):
+                v = float(math.floor(complex(args[0]).real + (0.5 if f == "rnd" else 0.0)))
+            else:
+                # uninterpreted: a reproducible pseudo-random function of the argument values
+                h = hash((f,) + tuple(round(complex(x).real, 9) if not isinstance(x, (str, int)) else x for x in args))
+                v = _random.Random(h).uniform(0.6, 1.7)
+        except (ValueError, ZeroDivisionError, OverflowError):
+            v = self.rng.uniform(0.6, 1.7)
+        self.cache[a] = v
+        return v
+
+    def poly(self, p):
+        tot = 0.0
+        for k, c in p.t.items():
+            term = float(c.numerator) / float(c.denominator)
+            for a, pw in k:
+                term = term * (self.atom(a) ** pw)
+            tot = tot + term
+        return tot
+
+    def rat(self, r):
+        d = self.poly(r.d)
+        if d == 0:
+            raise ZeroDivisionError
+        return self.poly(r.n) / d
+
+
+def numeric_difference(a, b, trials=2, seed=None):
+    """-> (value_a, value_b, point) at a random point where the two expressions differ, else None"""
+    a, b = _R(a), _R(b)
+    base = int(os.environ.get("VERIF_SEED", "0") or 0) if seed is None else seed
+    for t in range(trials):
+        env = _Env(1000 * base + 17 * t + 3)
+        try:
+            va, vb = env.rat(a), env.rat(b)
+        except (ZeroDivisionError, OverflowError, ValueError):
+            continue
+        scale = 1.0 + abs(va) + abs(vb)
+        if abs(va - vb) > 1e-7 * scale:
+            pt = {k: round(v, 4) for k, v in env.cache.items() if isinstance(k, str) and k != "pi"}
+            return va, vb, pt
+    return None
+
+
+_exact_equal = equal
+_exact_is_zero = is_zero
+LAST_WITNESS = [None]
+
+
+def equal(a, b):
+    w = numeric_difference(a, b)
+    if w is not None:
+        LAST_WITNESS[0] = w
+        return False
+    return _exact_equal(a, b)
+
+
+def is_zero(a):
+    w = numeric_difference(a, const(0))
+    if w is not None:
+        LAST_WITNESS[0] = w
+        return False
+    return _exact_is_zero(a)
+
+
+def inv3x3_atoms(cells):
+    """uninterpreted inverse of a 3x3 matrix given as 3x3 nested list of Rat -> 3x3 nested list of atoms.
+    The inverse of a symmetric matrix is symmetric: its atoms use canonical (min,max) indices."""
+    key = tuple(canon(cells[i][j]) for i in range(3) for j in range(3))
+    symmetric = all(key[3 * i + j] == key[3 * j + i] for i in range(3) for j in range(3))
+    out = []
+    for i in range(3):
+        row = []
+        for j in range(3):
+            ii, jj = (min(i, j), max(i, j)) if symmetric else (i, j)
+            row.append(atom(("inv3x3", ii, jj, key)))
+        out.append(row)
+    return out, key
